@@ -74,7 +74,18 @@ func (p *prog) compareRec(r *rec, model string, subset bool) string {
 			return fmt.Sprintf("field %s=%s missing in model", k, fv)
 		}
 		if fv != mv {
-			return fmt.Sprintf("field %s: impl=%s model=%s", k, fv, mv)
+			// "a|b" in the model/spec line: any of the alternatives is accepted
+			okAlt := false
+			if strings.Contains(mv, "|") && k == "r" {
+				for _, alt := range strings.Split(mv, "|") {
+					if alt == fv {
+						okAlt = true
+					}
+				}
+			}
+			if !okAlt {
+				return fmt.Sprintf("field %s: impl=%s model=%s", k, fv, mv)
+			}
 		}
 	}
 	return ""
